@@ -2909,7 +2909,7 @@ def _block_defs(fn: ast.FunctionDef):
     return out
 
 
-def reaching_assign(fn: ast.FunctionDef, at: ast.stmt, name: str, pos=None, aug: bool = False):
+def reaching_assign(fn: ast.FunctionDef, at: ast.stmt, name: str, pos=None, aug: bool = False, compound: bool = False):
     """the last plain assignment to `name` that textually precedes `at` in its own statement list or an enclosing one
     (with `aug`, also an augmented assignment `name op= e`)"""
     pos = pos or _block_defs(fn)
@@ -2922,6 +2922,8 @@ def reaching_assign(fn: ast.FunctionDef, at: ast.stmt, name: str, pos=None, aug:
             if aug and isinstance(s, ast.AugAssign) and isinstance(s.target, ast.Name) and s.target.id == name:
                 return s
             if any(isinstance(x, (ast.Assign, ast.AugAssign)) and name in (set().union(*[_target_names(t) for t in x.targets]) if isinstance(x, ast.Assign) else _target_names(x.target)) for x in ast.walk(s)):
+                if compound and isinstance(s, ast.If):
+                    return s  # the caller merges the alternatives of the `if`
                 return None  # defined inside a nested block: no single reaching definition
         cur = up
     return None
@@ -2957,9 +2959,33 @@ def resolve_reaching(fn: ast.FunctionDef, e: ast.expr, at: ast.stmt, keep=(), pa
                 lost = ast.Name(id="__unresolved__", ctx=ast.Load()) if (n.id in tainted or not keep) else n
                 if d <= 0:
                     return lost
-                st = reaching_assign(fn, at_, n.id, pos, aug=True)
+                st = reaching_assign(fn, at_, n.id, pos, aug=True, compound=True)
                 if st is None and n.id in all_params and not _assigned_before(fn, at_, n.id, pos):
                     return n  # a parameter that still holds the caller's value here
+                if isinstance(st, ast.If):
+                    # `if c: x = A` [`else: x = B`]: both alternatives, the value of before the `if` where a branch leaves x alone
+                    def last_def(stmts):
+                        for s_ in reversed(stmts):
+                            if isinstance(s_, ast.Assign) and len(s_.targets) == 1 and isinstance(s_.targets[0], ast.Name) and s_.targets[0].id == n.id:
+                                return s_
+                            if isinstance(s_, ast.AugAssign) and isinstance(s_.target, ast.Name) and s_.target.id == n.id:
+                                return s_
+                            if any(isinstance(x, (ast.Assign, ast.AugAssign)) and n.id in (set().union(*[_target_names(t) for t in x.targets]) if isinstance(x, ast.Assign) else _target_names(x.target)) for x in ast.walk(s_)):
+                                return "nested"
+                        return None
+
+                    alts = []
+                    for branch in (st.body, st.orelse):
+                        ld = last_def(branch)
+                        if ld == "nested":
+                            return lost
+                        if ld is None:
+                            alts.append(go(ast.Name(id=n.id, ctx=ast.Load()), st, d - 1))
+                        elif isinstance(ld, ast.AugAssign):
+                            alts.append(go(ast.BinOp(left=ast.Name(id=n.id, ctx=ast.Load()), op=copy.deepcopy(ld.op), right=copy.deepcopy(ld.value)), ld, d - 1))
+                        else:
+                            alts.append(go(copy.deepcopy(ld.value), ld, d - 1))
+                    return ast.IfExp(test=ast.Name(id="__path__", ctx=ast.Load()), body=alts[0], orelse=alts[1])
                 if isinstance(st, ast.AugAssign):
                     # x op= e  is  x = x op e  with the x of before
                     return go(ast.BinOp(left=ast.Name(id=n.id, ctx=ast.Load()), op=copy.deepcopy(st.op), right=copy.deepcopy(st.value)), st, d - 1)
@@ -3747,7 +3773,12 @@ def scale_reaches(r: R, chk, quals: List[str], rule="SCALE-REACHES", floor: int 
                         grow = True
 
         def scaled(e):
-            return any(isinstance(b, ast.BinOp) and isinstance(b.op, ast.Div) and any(knot_diff(x) for x in ast.walk(b.right)) for b in ast.walk(e))
+            """every alternative of `e` (path merges of resolve_reaching) contains a division by a knot difference"""
+            if isinstance(e, ast.IfExp) and isinstance(e.test, ast.Name) and e.test.id == "__path__":
+                return scaled(e.body) and scaled(e.orelse)
+            if isinstance(e, ast.BinOp) and isinstance(e.op, ast.Div) and any(knot_diff(x) for x in ast.walk(e.right)):
+                return True
+            return any(scaled(c) for c in ast.iter_child_nodes(e) if isinstance(c, ast.expr))
 
         divides = any((isinstance(a, ast.AugAssign) and isinstance(a.op, ast.Div) and any(knot_diff(x) for x in ast.walk(a.value))) or (isinstance(a, ast.BinOp) and isinstance(a.op, ast.Div) and any(knot_diff(x) for x in ast.walk(a.right))) for a in ast.walk(fn))
         if not divides:
